@@ -36,21 +36,36 @@ example : ∃ res d1 d4 v v4, delete (str "a.b") repaired (formatted 10) = (res,
     v4.label = v.label :=
   prodos_delete_refines_name formatted10_sinv (str "a.b") (by decide) (by decide) (by decide)
 
+/-- a sparse file image of three chunk positions (a sapling with a hole) -/
+def exF : FImg :=
+  { fullPath := str "a", fsType := [6], aux := [0, 0x20], access := [0xC3], eof := 1100,
+    chunks := [(0, chunkOf 1 512), (2, chunkOf 3 76)] }
+
+theorem exF_args : PutArgs exF exTime :=
+  ⟨by decide, by decide +kernel, by decide +kernel, by decide, by decide, by decide, by decide, by decide,
+    by intro a h; have : a = 0xC3 := by simpa [exF] using h.symm
+       subst this; decide,
+    by decide⟩
+
 /-- a history of volume-directory operations addressed by simple names on the formatted volume: the hypotheses of
 `prodos_history_refines` and of its corollaries are satisfiable -/
 def exOps : List VOp :=
-  [.lock (str "a"), .rename (str "a") (str "b"), .delete (str "b"), .unlock (str "c.d"), .retype (str "c.d") (some 4) (some 0),
-   .retype (str "c.d") none (some 0)]
+  [.put exF exTime, .lock (str "a"), .rename (str "a") (str "b"), .delete (str "b"), .unlock (str "c.d"),
+   .retype (str "c.d") (some 4) (some 0), .retype (str "c.d") none (some 0)]
 
 theorem exOps_root : ∀ op ∈ exOps, op.Root (volName (hdrOf (formatted 10).raw)) := by
   intro op hop
   simp only [exOps, List.mem_cons, List.not_mem_nil, or_false] at hop
-  rcases hop with rfl | rfl | rfl | rfl | rfl | rfl <;>
-    exact ⟨rootPath_simple _ _ (by decide) (by decide) (by decide), by
-      intro p t a h
-      first
-        | (injection h with _ h2 _; injection h2 with h2; omega)
-        | cases h⟩
+  rcases hop with rfl | rfl | rfl | rfl | rfl | rfl | rfl <;>
+    exact ⟨rootPath_simple _ _ (by decide) (by decide) (by decide),
+      fun p t a h => by cases h <;> omega,
+      fun f t h => by cases h <;> exact ⟨exF_args, by decide⟩⟩
+
+/-- the hypotheses of `put_refines'` are met -/
+example : Refines (formatted 10) (put exF exTime repaired (formatted 10))
+    (.put (upper (upper (str "a"))) exF.chunks exF.eof 6 (0 + 256 * 0x20)) :=
+  put_refines' formatted10_sinv exF exTime (upper (str "a")) exF_args (by decide)
+    (normalizePath_simple _ _ (by decide) (by decide) (by decide) (volName_len _)) (by decide)
 
 example : validFrom prodosParams (volOf (formatted 10).raw) (trace (volName (hdrOf (formatted 10).raw)) (formatted 10) exOps) ∧
     SInv (finalDisk (formatted 10) exOps) :=
